@@ -68,8 +68,8 @@ def gen_line(rng, seeds):
                 line = line[:i] + rng.choice("'\"`\\$(){}|&;<>*~# ") + line[i:]
     line = line[:200].replace("\r", "").replace("\x00", "")
     # keep the vocabulary hermetic: only helpers, builtins and names that do not exist can run
-    line = re.sub(r"\b(exit|exec|sudo|rm|sh|yes|cat|w|id|ls|vi|top|su)\b", "Qx", line)
-    return line
+    line = re.sub(r"\b(exit|exec)\b", "Qx", line)
+    return common.hermetic(line)
 
 
 def seeds_for(rng):
@@ -132,7 +132,7 @@ def judge_line(case):
         return ("violated", "C05:process:asan-%s" % (m.group(1).decode() if m else "report"), res)
     if r.rc is not None and r.rc < 0:
         return ("violated", "C05:process:killed-by-signal-%d" % (-r.rc), res)
-    if b"panicked at" in r.err or r.rc == 101:
+    if b"panicked at" in r.err:
         return ("violated", "C05:process:panic@%s" % location(r.err), res)
     if mode == "script":
         lines = line.split("\n")
@@ -148,7 +148,7 @@ def judge_line(case):
 
 KEYS = ["'", '"', "`", "\\", "$", "(", ")", "{", "}", "|", "&", ";", ">", "<", "*", "~", "#", " ", "Q", "Z", "7", "é", "中", "🙂", "́",
         "\t", "\t\t", "\x1b[A", "\x1b[B", "\x1b[C", "\x1b[D", "\x01", "\x05", "\x0b", "\x15", "\x17", "\x7f", "\r", "\x1b[3~", "\x1bb", "\x1bf",
-        "\x0c", "\x14", "\x19", "vp_", "vp_argv ", "./", "~/", "$X", "!!", "2>&1"]
+        "\x0c", "\x14", "\x19", "Qp_", "Qp_argv ", "./", "~/", "$X", "!!", "2>&1"]
 
 
 def judge_pty(case):
